@@ -227,6 +227,19 @@ func (c *Ctx) RuleUpd() []*Result {
 							bad = "a parameter without a static caller"
 						}
 					case *ssa.Call:
+						if f := staticCallee(&x.Call); f != nil && objPkgPath(f) == "cmp" && f.Name() == "Or" {
+							// cmp.Or(a, b, ...): the first non-zero argument
+							for _, a := range x.Call.Args {
+								if sl, ok := a.(*ssa.Slice); ok {
+									for _, e := range variadicElems(sl) {
+										walk(e, in, d+1)
+									}
+								} else {
+									walk(a, in, d+1)
+								}
+							}
+							return
+						}
 						hf := staticFn(&x.Call)
 						if hf == nil || !c.P.IsRepoFn(hf) || len(hf.Blocks) == 0 {
 							bad = "the result of " + calleeLabel(&x.Call)
